@@ -542,6 +542,8 @@ class CallMixin:
                     st.pc.append(f"(forall ((|q_a| Int)) (! (=> (and (>= |q_a| 0) (< |q_a| (seq.len {recv.s}))) (= (seq.nth {r.s} |q_a|) (seq.nth {recv.s} |q_a|))) :pattern ((seq.nth {r.s} |q_a|))))")
                     st.pc.append(f"(forall ((|q_a| Int)) (! (=> (and (>= |q_a| (seq.len {recv.s})) (< |q_a| (seq.len {r.s}))) (= (seq.nth {r.s} |q_a|) (seq.nth {x.s} (- |q_a| (seq.len {recv.s}))))) :pattern ((seq.nth {r.s} |q_a|))))")
                     st.pc.append(f"(forall ((|q_e| {sort_smt(s[1])})) (! (= (seq.contains {r.s} (seq.unit |q_e|)) (or (seq.contains {recv.s} (seq.unit |q_e|)) (seq.contains {x.s} (seq.unit |q_e|)))) :pattern ((seq.contains {r.s} (seq.unit |q_e|)))))")
+                    if self.cur_contract.get("on_extend"):
+                        self.cur_contract["on_extend"](self, st, recv, r, x)     # facts about contract-level abstractions of the extended list
                     if self.store_back(f.value, r, st):
                         return T(NONE, "none")
             if at == "copy":
@@ -556,6 +558,8 @@ class CallMixin:
                 st.pc.append(f"(= (seq.len {r.s}) (- (seq.len {recv.s}) 1))")
                 st.pc.append(f"(forall ((|q_a| Int)) (! (=> (and (>= |q_a| 0) (< |q_a| (seq.len {r.s}))) (= (seq.nth {r.s} |q_a|) (seq.nth {recv.s} |q_a|))) :pattern ((seq.nth {r.s} |q_a|))))")
                 st.pc.append(f"(forall ((|q_e| {sort_smt(s[1])})) (! (= (seq.contains {recv.s} (seq.unit |q_e|)) (or (seq.contains {r.s} (seq.unit |q_e|)) (= |q_e| {last.s}))) :pattern ((seq.contains {recv.s} (seq.unit |q_e|))) :pattern ((seq.contains {r.s} (seq.unit |q_e|)))))")
+                if self.cur_contract.get("on_pop"):
+                    self.cur_contract["on_pop"](self, st, recv, r, last)       # facts about contract-level abstractions of the shortened list
                 if self.store_back(f.value, r, st):
                     return last
         if s == STR:
